@@ -459,4 +459,1470 @@ def query_touching(dec, chrom_name, start, end):
     return [list(it) for it in dec[key].get(cid, []) if it[1] >= start and it[0] <= end]
 
 
-# ---END---
+# --------------------------------------------------------------------------
+# check: shared context
+# --------------------------------------------------------------------------
+
+class _Ctx:
+    """Parses each part of the file once, remembering a fatal error per part so
+    that every check family can report 'not checkable' instead of crashing."""
+
+    def __init__(self, data, sorted_chrom_keys, strict_ips):
+        self.data = bytes(data)
+        self.sorted_chrom_keys = sorted_chrom_keys
+        self.strict_ips = strict_ips
+        self.h, self.r = _parse_header(self.data)      # may raise
+        self.kind, self.e = self.h["kind"], self.h["e"]
+        self.compressed = self.h["uncompress_buf_size"] > 0
+        self._memo = {}
+
+    def _get(self, key, fn):
+        if key not in self._memo:
+            try:
+                self._memo[key] = (fn(), None)
+            except BBIFormatError as x:
+                self._memo[key] = (None, str(x))
+        val, err = self._memo[key]
+        if err is not None:
+            raise BBIFormatError(err)
+        return val
+
+    def bpt(self):
+        return self._get("bpt", lambda: _walk_bpt(self.r, self.h["chrom_tree_offset"]))
+
+    def chrom_sizes(self):
+        return {cid: size for _, cid, size in self.bpt()["leaves"]}
+
+    def rtree(self, zi=None):
+        if zi is None:
+            return self._get("idx", lambda: _walk_rtree(self.r, self.h["full_index_offset"],
+                                                        "main index"))
+        return self._get(("zidx", zi), lambda: _walk_rtree(
+            self.r, self.h["zoom_headers"][zi]["index_offset"], "zoom %d index" % zi))
+
+    def main_blocks(self):
+        """[(leaf, inflated bytes or None, parsed or None, error or None)]"""
+        def load():
+            res = []
+            for n, leaf in enumerate(self.rtree()["leaves"]):
+                what = "data block %d at %d" % (n, leaf["offset"])
+                buf = parsed = err = None
+                try:
+                    buf = _load_block(self.r, leaf, self.compressed, what)
+                    if self.kind == "bigwig":
+                        parsed = _parse_wig_section(self.e, buf, what)
+                    else:
+                        parsed = _parse_bed_block(self.e, buf, what)
+                except BBIFormatError as x:
+                    err = str(x)
+                res.append((leaf, buf, parsed, err))
+            return res
+        return self._get("blocks", load)
+
+    def zoom_blocks(self, zi):
+        def load():
+            res = []
+            for n, leaf in enumerate(self.rtree(zi)["leaves"]):
+                what = "zoom %d block %d at %d" % (zi, n, leaf["offset"])
+                buf = recs = err = None
+                try:
+                    buf = _load_block(self.r, leaf, self.compressed, what)
+                    recs = _parse_zoom_block(self.e, buf, what)[0]
+                except BBIFormatError as x:
+                    err = str(x)
+                res.append((leaf, buf, recs, err))
+            return res
+        return self._get(("zblocks", zi), load)
+
+    def segments(self):
+        """chrom_id -> sorted disjoint [(start, end, value)] with end > start:
+        bigWig: the items themselves (None for a chromosome whose items are
+        unsorted/overlapping); bigBed: runs of constant coverage depth >= 1."""
+        def build():
+            per = {}
+            for leaf, buf, parsed, err in self.main_blocks():
+                if err is not None:
+                    raise BBIFormatError("data not decodable: " + err)
+                if self.kind == "bigwig":
+                    per.setdefault(parsed["chrom_id"], []).extend(
+                        (s, e, bits_to_float(b)) for s, e, b in parsed["items"])
+                else:
+                    for c, s, e, _ in parsed:
+                        per.setdefault(c, []).append((s, e))
+            segs = {}
+            for c, items in per.items():
+                if self.kind == "bigwig":
+                    lst = [it for it in items if it[1] > it[0]]
+                    ok = all(lst[i][0] >= lst[i - 1][1] for i in range(1, len(lst)))
+                    segs[c] = lst if ok else None
+                else:
+                    delta = {}
+                    for s, e in items:
+                        if e > s:
+                            delta[s] = delta.get(s, 0) + 1
+                            delta[e] = delta.get(e, 0) - 1
+                    lst, depth, prev = [], 0, None
+                    for p in sorted(delta):
+                        if depth > 0 and p > prev:
+                            lst.append((prev, p, float(depth)))
+                        depth += delta[p]
+                        prev = p
+                    segs[c] = lst
+            return segs
+        return self._get("segments", build)
+
+
+def _lex_le(a, b):
+    return (a[0], a[1]) <= (b[0], b[1])
+
+
+def _stats(segs):
+    """Exact float64 statistics of disjoint (start, end, value) runs:
+    (bases, min, max, sum, sumsq, sum_abs, sumsq_abs)."""
+    bases = 0
+    mn = mx = None
+    terms, sq = [], []
+    for s, e, v in segs:
+        n = e - s
+        bases += n
+        terms.append(v * n)
+        sq.append(v * v * n)
+        if mn is None or v < mn:
+            mn = v
+        if mx is None or v > mx:
+            mx = v
+    import math
+    return (bases, mn, mx, math.fsum(terms), math.fsum(sq),
+            math.fsum(abs(t) for t in terms), math.fsum(sq))
+
+
+def _close(got, exp, tol, scale=0.0):
+    if exp != exp:
+        return got != got
+    if got == exp:
+        return True
+    if got != got or abs(got) == float("inf") or abs(exp) == float("inf"):
+        return False
+    return abs(got - exp) <= tol * max(abs(exp), scale)
+
+
+# --------------------------------------------------------------------------
+# check family: header
+# --------------------------------------------------------------------------
+
+def _check_header(cx):
+    P = []
+    h, r, n = cx.h, cx.r, len(cx.data)
+    e = cx.e
+    if n < 68:
+        P.append("file of %d bytes cannot hold a header and a trailing magic" % n)
+    tail = struct.unpack(e + "I", cx.data[-4:])[0]
+    if tail != h["magic"]:
+        P.append("trailing magic is %08x, expected %08x" % (tail, h["magic"]))
+    body_end = n - 4
+    if not 1 <= h["version"] <= 4:
+        P.append("version %d is outside 1..4" % h["version"])
+    z = h["zoom_levels"]
+    if z > 10:
+        P.append("zoomLevels %d exceeds 10" % z)
+    zend = 64 + 24 * z
+    last = 0
+    for i, zh in enumerate(h["zoom_headers"]):
+        if zh["reduction"] <= last:
+            P.append("zoom %d: reduction %d is not greater than the previous level's %d"
+                     % (i, zh["reduction"], last))
+        last = max(last, zh["reduction"])
+        if zh["reserved"] != 0:
+            P.append("zoom %d: reserved field is %d, not 0" % (i, zh["reserved"]))
+        for nm, off, sz in (("dataOffset", zh["data_offset"], 1),
+                            ("indexOffset", zh["index_offset"], 48)):
+            if off < zend or off + sz > body_end:
+                P.append("zoom %d: %s %d (+%d) is outside the file body [%d,%d)"
+                         % (i, nm, off, sz, zend, body_end))
+    regions = [(0, 64, "header")]
+    if z:
+        regions.append((64, zend, "zoom headers"))
+
+    def offcheck(nm, off, sz):
+        if off < zend or off + sz > body_end:
+            P.append("%s %d (+%d bytes) is outside the file body [%d,%d)"
+                     % (nm, off, sz, zend, body_end))
+            return False
+        return True
+
+    offcheck("chromosomeTreeOffset", h["chrom_tree_offset"], 32 + 4)
+    offcheck("fullIndexOffset", h["full_index_offset"], 48 + 4)
+    dc_size = _data_count_width(cx)
+    if offcheck("fullDataOffset", h["full_data_offset"], dc_size):
+        regions.append((h["full_data_offset"], h["full_data_offset"] + dc_size, "dataCount"))
+    order = [("zoom headers", zend)]
+    aso, tso = h["autosql_offset"], h["total_summary_offset"]
+    if cx.kind == "bigwig":
+        if h["field_count"] or h["defined_field_count"]:
+            P.append("bigWig with fieldCount %d / definedFieldCount %d (expected 0/0)"
+                     % (h["field_count"], h["defined_field_count"]))
+        if aso:
+            P.append("bigWig with a non-zero autoSqlOffset %d" % aso)
+    else:
+        if h["field_count"] < 3:
+            P.append("bigBed fieldCount %d is below 3" % h["field_count"])
+        if h["defined_field_count"] > h["field_count"]:
+            P.append("definedFieldCount %d exceeds fieldCount %d"
+                     % (h["defined_field_count"], h["field_count"]))
+    if aso and offcheck("autoSqlOffset", aso, 1):
+        try:
+            s = _read_autosql(r, aso)
+            if aso + len(s) + 1 > body_end:
+                P.append("autoSql runs into the trailing magic")
+            regions.append((aso, aso + len(s) + 1, "autoSql"))
+            order.append(("autoSql", aso))
+            order.append(("end of autoSql", aso + len(s) + 1))
+        except BBIFormatError as x:
+            P.append(str(x))
+    if tso:
+        if offcheck("totalSummaryOffset", tso, 40):
+            regions.append((tso, tso + 40, "total summary"))
+            order.append(("total summary", tso))
+            order.append(("end of total summary", tso + 40))
+    elif h["version"] >= 2:
+        P.append("version %d file without a total summary (totalSummaryOffset 0)" % h["version"])
+    order.append(("fullDataOffset", h["full_data_offset"]))
+    for (na, a), (nb, b) in zip(order, order[1:]):
+        if a > b:
+            P.append("region order: %s (%d) lies after %s (%d)" % (na, a, nb, b))
+    ext = h["extension_offset"]
+    if ext:
+        # The last header field is 'reserved' in versions 1-3 and
+        # extensionOffset in kent's version 4 bigBed files.  Tolerated when it
+        # points at a plausible extension header (u16 size >= 64) in the file.
+        ok = False
+        if zend <= ext and ext + 64 <= body_end:
+            size = struct.unpack_from(e + "H", cx.data, ext)[0]
+            ok = size >= 64 and ext + size <= body_end
+            if ok:
+                regions.append((ext, ext + size, "extension header"))
+        if not ok:
+            P.append("reserved/extensionOffset field is %d and does not point at an "
+                     "extension header" % ext)
+    # everything that can be located, for the overlap test
+    try:
+        for nd in cx.bpt()["nodes"]:
+            regions.append((nd["offset"], nd["end"], "chromosome tree node"))
+        regions.append((h["chrom_tree_offset"], h["chrom_tree_offset"] + 32,
+                        "chromosome tree header"))
+    except BBIFormatError:
+        pass
+    for zi in [None] + list(range(z)):
+        nm = "main index" if zi is None else "zoom %d index" % zi
+        try:
+            t = cx.rtree(zi)
+        except BBIFormatError:
+            continue
+        regions.append((t["offset"], t["offset"] + 48, nm + " header"))
+        for nd in t["nodes"]:
+            regions.append((nd["offset"], nd["end"], nm + " node"))
+        for lf in t["leaves"]:
+            if lf["size"]:
+                regions.append((lf["offset"], lf["offset"] + lf["size"],
+                                "data block" if zi is None else "zoom %d block" % zi))
+            if zi is None and lf["offset"] < h["full_data_offset"] + dc_size:
+                P.append("data block at %d lies before the end of dataCount (%d)"
+                         % (lf["offset"], h["full_data_offset"] + dc_size))
+    regions.append((body_end, n, "trailing magic"))
+    regions.sort()
+    shown = 0
+    for (a0, a1, an), (b0, b1, bn) in zip(regions, regions[1:]):
+        if b0 < a1 and shown < 20:
+            P.append("regions overlap: %s [%d,%d) and %s [%d,%d)" % (an, a0, a1, bn, b0, b1))
+            shown += 1
+    return P
+
+
+def _data_count_width(cx):
+    """Width of the dataCount field.  kent's writers emit a u64 (bits64
+    dataCount); the table in the paper's supplement gives 4 bytes and some
+    writers (old bigtools, e.g. resources/test/valid.bigWig) followed it.  No
+    reader needs the field, so the 4-byte form is tolerated when the first
+    data block starts exactly 4 bytes after fullDataOffset."""
+    try:
+        offs = [l["offset"] for l in cx.rtree()["leaves"]]
+    except BBIFormatError:
+        return 8
+    if offs and min(offs) == cx.h["full_data_offset"] + 4:
+        return 4
+    return 8
+
+
+# --------------------------------------------------------------------------
+# check family: chromosome tree
+# --------------------------------------------------------------------------
+
+def _check_chromtree(cx):
+    P = []
+    try:
+        t = cx.bpt()
+    except BBIFormatError as x:
+        return [str(x)]
+    if t["block_size"] < 1:
+        P.append("blockSize is 0")
+    if t["reserved"] != 0:
+        P.append("header reserved field is %d, not 0" % t["reserved"])
+    if len(t["leaf_levels"]) > 1:
+        P.append("leaves at different depths %s" % sorted(t["leaf_levels"]))
+    for nd in t["nodes"]:
+        w = "node at %d" % nd["offset"]
+        if nd["reserved"] != 0:
+            P.append("%s: reserved byte is %d, not 0" % (w, nd["reserved"]))
+        if nd["count"] > t["block_size"]:
+            P.append("%s: %d items exceed blockSize %d" % (w, nd["count"], t["block_size"]))
+        if nd["count"] == 0 and not (nd["level"] == 0 and nd["is_leaf"] and t["item_count"] == 0):
+            P.append("%s: empty node" % w)
+    if t["item_count"] != len(t["leaves"]):
+        P.append("itemCount %d but the leaves hold %d items" % (t["item_count"], len(t["leaves"])))
+    ids = [cid for _, cid, _ in t["leaves"]]
+    if len(set(ids)) != len(ids):
+        P.append("chromosome ids are not unique: %s" % sorted(i for i in set(ids) if ids.count(i) > 1)[:10])
+    elif sorted(ids) != list(range(len(ids))):
+        P.append("chromosome ids are not dense 0..%d: %s" % (len(ids) - 1, sorted(ids)[:20]))
+    names = []
+    for key, cid, size in t["leaves"]:
+        nm = key.split(b"\0", 1)[0]
+        if key[len(nm):].strip(b"\0"):
+            P.append("key %r has non-NUL bytes after its NUL padding" % key)
+        if not nm:
+            P.append("empty chromosome name (id %d)" % cid)
+        names.append(nm)
+    if len(set(names)) != len(names):
+        P.append("duplicate chromosome names")
+    if cx.sorted_chrom_keys:
+        for nd in t["nodes"]:
+            keys = [it[0] for it in nd["items"]]
+            for a, b in zip(keys, keys[1:]):
+                if not a < b:
+                    P.append("node at %d: keys %r, %r not in increasing order"
+                             % (nd["offset"], a, b))
+                    break
+        allk = [k for k, _, _ in t["leaves"]]
+        if any(not a < b for a, b in zip(allk, allk[1:])):
+            P.append("keys are not increasing across the leaves (lookup by bisection fails)")
+        # a non-leaf key must not exceed the smallest key below it, and must
+        # exceed everything under the previous sibling (kent: bptFind descends
+        # into the last child whose key <= query)
+        by_off = {nd["offset"]: nd for nd in t["nodes"]}
+
+        def bounds(nd):
+            if nd["is_leaf"]:
+                ks = [it[0] for it in nd["items"]]
+                return (min(ks), max(ks)) if ks else None
+            bs = [bounds(by_off[c]) for _, c in nd["items"] if c in by_off]
+            bs = [b for b in bs if b]
+            return (min(b[0] for b in bs), max(b[1] for b in bs)) if bs else None
+
+        for nd in t["nodes"]:
+            if nd["is_leaf"]:
+                continue
+            prev_hi = None
+            for i, (key, child) in enumerate(nd["items"]):
+                b = bounds(by_off[child])
+                if b is None:
+                    continue
+                if i > 0 and key > b[0]:
+                    P.append("node at %d: separator %r is greater than key %r below it"
+                             % (nd["offset"], key, b[0]))
+                if prev_hi is not None and not prev_hi < key:
+                    P.append("node at %d: separator %r does not exceed key %r under the "
+                             "previous child" % (nd["offset"], key, prev_hi))
+                prev_hi = b[1]
+    return P
+
+
+# --------------------------------------------------------------------------
+# check family: index (every R tree)
+# --------------------------------------------------------------------------
+
+def _check_rtree(cx, t, nm):
+    P = []
+    n = len(cx.data)
+    if t["block_size"] < 1:
+        P.append("%s: blockSize is 0" % nm)
+    if t["reserved"] != 0:
+        P.append("%s: header reserved field is %d, not 0" % (nm, t["reserved"]))
+    if t["items_per_slot"] < 1:
+        P.append("%s: itemsPerSlot is 0" % nm)
+    if len(t["leaf_levels"]) > 1:
+        P.append("%s: leaves at different depths %s" % (nm, sorted(t["leaf_levels"])))
+    hb = tuple(t["bounds"])
+    for nd in t["nodes"]:
+        w = "%s node at %d" % (nm, nd["offset"])
+        if nd["reserved"] != 0:
+            P.append("%s: reserved byte is %d, not 0" % (w, nd["reserved"]))
+        if nd["count"] > t["block_size"]:
+            P.append("%s: %d items exceed blockSize %d" % (w, nd["count"], t["block_size"]))
+        if nd["count"] == 0 and not (nd["level"] == 0 and nd["is_leaf"] and t["item_count"] == 0):
+            P.append("%s: empty node" % w)
+        outer = nd["span"] if nd["span"] is not None else hb
+        oname = "the span its parent records" if nd["span"] is not None else "the header bounds"
+        for it in nd["items"]:
+            sp = it[:4]
+            if not _lex_le(sp[0:2], sp[2:4]):
+                P.append("%s: item span %s ends before it starts" % (w, list(sp)))
+            if not (_lex_le(outer[0:2], sp[0:2]) and _lex_le(sp[2:4], outer[2:4])):
+                P.append("%s: item span %s is not contained in %s %s"
+                         % (w, list(sp), oname, list(outer)))
+    if t["item_count"] != len(t["leaves"]):
+        P.append("%s: itemCount %d but the leaves hold %d items"
+                 % (nm, t["item_count"], len(t["leaves"])))
+    prev = None
+    for lf in t["leaves"]:
+        st = (lf["span"][0], lf["span"][1])
+        if prev is not None and st < prev:
+            P.append("%s: leaf start %s after %s: leaf starts not in non-decreasing order"
+                     % (nm, list(st), list(prev)))
+        prev = st
+        if lf["size"] == 0:
+            P.append("%s: leaf %s points at an empty block" % (nm, lf["span"]))
+        if lf["offset"] < 64 or lf["offset"] + lf["size"] > n - 4:
+            P.append("%s: leaf data [%d,%d) is outside the file body"
+                     % (nm, lf["offset"], lf["offset"] + lf["size"]))
+        elif lf["offset"] + lf["size"] > t["end_file_offset"]:
+            P.append("%s: leaf data [%d,%d) extends past endFileOffset %d"
+                     % (nm, lf["offset"], lf["offset"] + lf["size"], t["end_file_offset"]))
+    rng = sorted((lf["offset"], lf["offset"] + lf["size"]) for lf in t["leaves"])
+    for a, b in zip(rng, rng[1:]):
+        if b[0] < a[1]:
+            P.append("%s: leaf data ranges [%d,%d) and [%d,%d) overlap" % (nm, a[0], a[1], b[0], b[1]))
+    return P
+
+
+def _check_index(cx):
+    P = []
+    for zi in [None] + list(range(cx.h["zoom_levels"])):
+        nm = "main index" if zi is None else "zoom %d index" % zi
+        try:
+            t = cx.rtree(zi)
+        except BBIFormatError as x:
+            P.append(str(x))
+            continue
+        P.extend(_check_rtree(cx, t, nm))
+    return P
+
+
+# --------------------------------------------------------------------------
+# check family: data blocks
+# --------------------------------------------------------------------------
+
+def _ips_bound(cx, t):
+    """itemsPerSlot bound to enforce on a block, or None.  kent's writers pass
+    itemsPerSlot = 1 to the index writer (one index item per data block) while
+    packing many items per block, so a header value of 1 says nothing about the
+    block population; unless strict_items_per_slot is set it is not enforced."""
+    ips = t["items_per_slot"]
+    if cx.strict_ips is True:
+        return ips
+    if cx.strict_ips is False:
+        return None
+    return ips if ips > 1 else None
+
+
+def _check_blocks(cx):
+    P = []
+    h = cx.h
+    try:
+        t = cx.rtree()
+        blocks = cx.main_blocks()
+    except BBIFormatError as x:
+        return ["data blocks not reachable: %s" % x]
+    try:
+        sizes = cx.chrom_sizes()
+    except BBIFormatError as x:
+        sizes = None
+        P.append("chromosome sizes unavailable (%s): chromosome bounds not checked" % x)
+    bound = _ips_bound(cx, t)
+    ubs = h["uncompress_buf_size"]
+    n_items = 0
+    last = {}            # chrom -> (end of last bigWig item | start of last bigBed item)
+    last_chrom = None
+    for n, (leaf, buf, parsed, err) in enumerate(blocks):
+        w = "data block %d at %d" % (n, leaf["offset"])
+        if err is not None:
+            P.append(err)
+            continue
+        if cx.compressed and len(buf) > ubs:
+            P.append("%s: inflates to %d bytes, more than uncompressBufSize %d" % (w, len(buf), ubs))
+        sc, sb, ec, eb = leaf["span"]
+        if sc != ec:
+            P.append("%s: leaf span %s covers more than one chromosome" % (w, leaf["span"]))
+        if cx.kind == "bigwig":
+            items = [(parsed["chrom_id"], s, e) for s, e, _ in parsed["items"]]
+            if parsed["reserved"] != 0:
+                P.append("%s: section reserved byte is %d, not 0" % (w, parsed["reserved"]))
+            if items:
+                lo, hi = items[0][1], max(e for _, _, e in items)
+                if parsed["start"] != lo or parsed["end"] != hi:
+                    P.append("%s: section header range [%d,%d) differs from its items' [%d,%d)"
+                             % (w, parsed["start"], parsed["end"], lo, hi))
+        else:
+            items = [(c, s, e) for c, s, e, _ in parsed]
+        n_items += len(items)
+        if not items:
+            P.append("%s: holds no items" % w)
+            continue
+        if bound is not None and len(items) > bound:
+            P.append("%s: %d items exceed itemsPerSlot %d" % (w, len(items), bound))
+        chroms = sorted(set(c for c, _, _ in items))
+        if len(chroms) > 1:
+            P.append("%s: items of several chromosomes %s in one block" % (w, chroms[:5]))
+        if chroms[0] != sc or chroms[-1] != sc:
+            P.append("%s: items of chromosome %s under a leaf span of chromosome %d"
+                     % (w, chroms[:5], sc))
+        for c, s, e in items:
+            if s > e:
+                P.append("%s: item [%d,%d) ends before it starts" % (w, s, e))
+            if c == sc == ec and (s < sb or e > eb):
+                P.append("%s: item [%d,%d) is outside the leaf span [%d,%d]" % (w, s, e, sb, eb))
+                break
+        if last_chrom is not None and chroms[0] < last_chrom:
+            P.append("%s: chromosome %d after chromosome %d (blocks not in chromosome order)"
+                     % (w, chroms[0], last_chrom))
+        last_chrom = chroms[-1]
+        for c, s, e in items:
+            if cx.kind == "bigwig":
+                if c in last and s < last[c]:
+                    P.append("%s: item [%d,%d) starts before the previous item's end %d "
+                             "(items must be sorted and disjoint)" % (w, s, e, last[c]))
+                    last[c] = max(last[c], e)
+                    break
+                last[c] = e
+            else:
+                if c in last and s < last[c]:
+                    P.append("%s: entry [%d,%d) starts before the previous entry's start %d "
+                             "(entries must be sorted by start)" % (w, s, e, last[c]))
+                    break
+                last[c] = s
+        if sizes is not None:
+            for c, s, e in items:
+                if c not in sizes:
+                    P.append("%s: chromosome id %d is not in the chromosome tree" % (w, c))
+                    break
+                size = sizes[c]
+                if cx.kind == "bigwig":
+                    bad = e > size
+                else:
+                    bad = e > size or not (s < size or (s == e == size))
+                if bad:
+                    P.append("%s: item [%d,%d) is outside chromosome %d of size %d"
+                             % (w, s, e, c, size))
+                    break
+    width = _data_count_width(cx)
+    try:
+        dc = cx.r.unpack("Q" if width == 8 else "I", h["full_data_offset"], "dataCount")[0]
+        want = len(blocks) if cx.kind == "bigwig" else n_items
+        if dc != want:
+            P.append("dataCount is %d, the file holds %d %s"
+                     % (dc, want, "sections" if cx.kind == "bigwig" else "items"))
+    except BBIFormatError as x:
+        P.append(str(x))
+    return P
+
+
+def _check_fields(cx):
+    """Opt-in: every bigBed record carries fieldCount-3 tab separated fields."""
+    if cx.kind != "bigbed":
+        return []
+    P = []
+    want = cx.h["field_count"] - 3
+    try:
+        blocks = cx.main_blocks()
+    except BBIFormatError as x:
+        return [str(x)]
+    for n, (leaf, buf, parsed, err) in enumerate(blocks):
+        if err is not None:
+            continue
+        for c, s, e, rest in parsed:
+            rb = bytes.fromhex(rest)
+            got = len(rb.split(b"\t")) if rb else 0
+            if got != want:
+                P.append("data block %d: entry %d:[%d,%d) has %d extra fields, fieldCount-3 = %d"
+                         % (n, c, s, e, got, want))
+                break
+    return P
+
+
+# --------------------------------------------------------------------------
+# check family: total summary
+# --------------------------------------------------------------------------
+
+def _total_stats(segs_by_chrom):
+    allsegs = []
+    for c in sorted(segs_by_chrom):
+        if segs_by_chrom[c] is None:
+            raise BBIFormatError("items of chromosome %d are unsorted or overlapping" % c)
+        allsegs.extend(segs_by_chrom[c])
+    return _stats(allsegs)
+
+
+def _check_summary(cx):
+    P = []
+    tso = cx.h["total_summary_offset"]
+    if not tso:
+        return P            # absence is judged by the header family
+    try:
+        s = _read_summary(cx.r, tso)
+        bases, mn, mx, sm, sq, sabs, _ = _total_stats(cx.segments())
+    except BBIFormatError as x:
+        return ["total summary not checkable: %s" % x]
+    tol = 1e-6
+    if s["bases_covered"] != bases:
+        P.append("total summary basesCovered %d, data cover %d bases" % (s["bases_covered"], bases))
+    if bases:
+        if not _close(s["min"], mn, tol):
+            P.append("total summary minVal %r, data minimum %r" % (s["min"], mn))
+        if not _close(s["max"], mx, tol):
+            P.append("total summary maxVal %r, data maximum %r" % (s["max"], mx))
+    if not _close(s["sum"], sm, tol, sabs):
+        P.append("total summary sumData %r, data sum %r" % (s["sum"], sm))
+    if not _close(s["sum_squares"], sq, tol, sq):
+        P.append("total summary sumSquares %r, data sum of squares %r" % (s["sum_squares"], sq))
+    return P
+
+
+# --------------------------------------------------------------------------
+# check family: zooms
+# --------------------------------------------------------------------------
+
+def _range_stats(segs, starts, rs, re):
+    """Statistics of the runs in segs clipped to [rs, re)."""
+    i = bisect.bisect_right(starts, rs) - 1
+    if i < 0 or segs[i][1] <= rs:
+        i += 1
+    clipped = []
+    while i < len(segs) and segs[i][0] < re:
+        s, e, v = segs[i]
+        clipped.append((max(s, rs), min(e, re), v))
+        i += 1
+    return _stats(clipped)
+
+
+def _check_zooms(cx):
+    P = []
+    try:
+        segs = cx.segments()
+        seg_err = None
+    except BBIFormatError as x:
+        segs, seg_err = None, str(x)
+        P.append("zoom statistics not checkable: %s" % x)
+    starts = {}
+    if segs is not None:
+        for c, lst in segs.items():
+            if lst is not None:
+                starts[c] = [s for s, _, _ in lst]
+    try:
+        sizes = cx.chrom_sizes()
+    except BBIFormatError:
+        sizes = None
+    tol = 1e-5
+    for zi, zh in enumerate(cx.h["zoom_headers"]):
+        nm = "zoom %d (reduction %d)" % (zi, zh["reduction"])
+        try:
+            t = cx.rtree(zi)
+            blocks = cx.zoom_blocks(zi)
+        except BBIFormatError as x:
+            P.append("%s: %s" % (nm, x))
+            continue
+        bound = _ips_bound(cx, t)
+        ubs = cx.h["uncompress_buf_size"]
+        recs = []
+        for n, (leaf, buf, rr, err) in enumerate(blocks):
+            w = "%s block %d at %d" % (nm, n, leaf["offset"])
+            if err is not None:
+                P.append(err)
+                continue
+            if cx.compressed and len(buf) > ubs:
+                P.append("%s: inflates to %d bytes, more than uncompressBufSize %d"
+                         % (w, len(buf), ubs))
+            if not rr:
+                P.append("%s: holds no records" % w)
+            if bound is not None and len(rr) > bound:
+                P.append("%s: %d records exceed itemsPerSlot %d" % (w, len(rr), bound))
+            sp = leaf["span"]
+            for rec in rr:
+                if not (_lex_le(sp[0:2], (rec[0], rec[1])) and _lex_le((rec[0], rec[2]), sp[2:4])):
+                    P.append("%s: record %s is outside the leaf span %s" % (w, rec[:3], sp))
+                    break
+            recs.extend(rr)
+        if zh["data_offset"] + 4 <= len(cx.data) and blocks and \
+                min(b[0]["offset"] for b in blocks) == zh["data_offset"] + 4:
+            cnt = cx.r.unpack("I", zh["data_offset"], "zoom count")[0]
+            if cnt != len(recs):
+                P.append("%s: record count field is %d, the level holds %d records"
+                         % (nm, cnt, len(recs)))
+        ordered = True
+        prev = None
+        shown = 0
+        covered = {}
+        for rec in recs:
+            c, s, e, valid, mn, mx, sm, sq = rec
+            w = "%s record %d:[%d,%d)" % (nm, c, s, e)
+            if not s < e:
+                P.append("%s: empty or reversed range" % w)
+            elif e - s > zh["reduction"]:
+                P.append("%s: spans %d bases, more than the reduction level" % (w, e - s))
+            if sizes is not None and (c not in sizes or e > sizes[c]):
+                P.append("%s: outside the chromosome (%s)" % (w, sizes.get(c, "unknown id")))
+            if prev is not None and (c, s) < (prev[0], prev[1]):
+                P.append("%s: records not sorted (follows %d:[%d,%d))" % (w, prev[0], prev[1], prev[2]))
+                ordered = False
+            elif prev is not None and c == prev[0] and s < prev[2]:
+                P.append("%s: overlaps the previous record %d:[%d,%d)" % (w, prev[0], prev[1], prev[2]))
+                ordered = False
+            prev = rec
+            if segs is None or not s < e:
+                continue
+            lst = segs.get(c) or []
+            if segs.get(c, []) is None:
+                continue
+            bases, dmn, dmx, dsm, dsq, dabs, _ = _range_stats(lst, starts.get(c, []), s, e)
+            covered[c] = covered.get(c, 0) + bases
+            bad = []
+            if valid != bases:
+                bad.append("validCount %d, data cover %d bases" % (valid, bases))
+            if bases:
+                if not _close(mn, _f32(dmn), tol):
+                    bad.append("minVal %r, data %r" % (mn, dmn))
+                if not _close(mx, _f32(dmx), tol):
+                    bad.append("maxVal %r, data %r" % (mx, dmx))
+                if not _close(sm, _f32(dsm), tol, dabs):
+                    bad.append("sumData %r, data %r" % (sm, dsm))
+                if not _close(sq, _f32(dsq), tol, dsq):
+                    bad.append("sumSquares %r, data %r" % (sq, dsq))
+            else:
+                bad.append("covers no data")
+            if bad and shown < 10:
+                P.append("%s: %s" % (w, "; ".join(bad)))
+                shown += 1
+            elif bad and shown == 10:
+                P.append("%s: further statistic mismatches suppressed" % nm)
+                shown += 1
+        if segs is not None and ordered:
+            for c, lst in sorted(segs.items()):
+                if lst is None:
+                    continue
+                total = sum(e - s for s, e, _ in lst)
+                if covered.get(c, 0) != total:
+                    P.append("%s: chromosome %d has %d covered bases, the records cover %d of them"
+                             % (nm, c, total, covered.get(c, 0)))
+    return P
+
+
+# --------------------------------------------------------------------------
+# check
+# --------------------------------------------------------------------------
+
+_FAMILY_FUNCS = dict(header=_check_header, chromtree=_check_chromtree, index=_check_index,
+                     blocks=_check_blocks, summary=_check_summary, zooms=_check_zooms,
+                     fields=_check_fields)
+
+
+def check(data, only=None, *, sorted_chrom_keys=True, strict_items_per_slot=None):
+    """Well-formedness judgement.  Returns human-readable problems, each
+    prefixed by its check family; an empty list means well formed.
+
+    only: None (all of FAMILIES) or a set of names among FAMILIES + 'fields'.
+    sorted_chrom_keys: require byte-wise increasing keys in the chromosome tree.
+    strict_items_per_slot: None = enforce the itemsPerSlot bound on blocks
+    unless the index header says 1 (kent's convention, see _ips_bound);
+    True = always; False = never."""
+    fams = list(FAMILIES) if only is None else \
+        [f for f in FAMILIES + EXTRA_FAMILIES if f in set(only)]
+    if only is not None:
+        unknown = set(only) - set(FAMILIES + EXTRA_FAMILIES)
+        if unknown:
+            raise ValueError("unknown check families: %s" % sorted(unknown))
+    try:
+        cx = _Ctx(data, sorted_chrom_keys, strict_items_per_slot)
+    except BBIFormatError as x:
+        return ["[header] %s" % x]
+    out = []
+    for f in fams:
+        try:
+            ps = _FAMILY_FUNCS[f](cx)
+        except BBIFormatError as x:
+            ps = [str(x)]
+        out.extend("[%s] %s" % (f, p) for p in ps)
+    return out
+
+
+# --------------------------------------------------------------------------
+# encoder
+# --------------------------------------------------------------------------
+
+LAYOUTS = ("level_order", "depth_first", "reversed", "index_before_data")
+
+
+def _bound(spans):
+    lo = min((s[0], s[1]) for s in spans)
+    hi = max((s[2], s[3]) for s in spans)
+    return (lo[0], lo[1], hi[0], hi[1])
+
+
+def _chunks(n, k):
+    return [list(range(i, min(i + k, n))) for i in range(0, n, k)]
+
+
+def _build_levels(nleaf, fanout):
+    """levels[0] = leaf nodes (lists of leaf-item indexes); levels[k] = nodes
+    listing node indexes of level k-1; the last level holds the single root."""
+    if nleaf == 0:
+        return [[[]]]
+    levels = [_chunks(nleaf, fanout)]
+    while len(levels[-1]) > 1:
+        levels.append(_chunks(len(levels[-1]), fanout))
+    return levels
+
+
+def _node_order(levels, layout):
+    top = len(levels) - 1
+    if layout in ("level_order", "index_before_data"):
+        return [(L, i) for L in range(top, -1, -1) for i in range(len(levels[L]))]
+    if layout == "reversed":
+        return [(top, 0)] + [(L, i) for L in range(0, top) for i in range(len(levels[L]))]
+    if layout == "depth_first":
+        out = []
+
+        def rec(L, i):
+            out.append((L, i))
+            if L > 0:
+                for c in levels[L][i]:
+                    rec(L - 1, c)
+        rec(top, 0)
+        return out
+    raise ValueError("unknown rtree_layout %r (one of %s)" % (layout, LAYOUTS))
+
+
+def _emit_indexed(e, base, blocks, spans, fanout, layout, ips, prefix_fmt, prefix_val, pad):
+    """Lay out `prefix, blocks..., R tree` (or the R tree first for
+    'index_before_data') starting at file offset `base`.
+    Returns (bytes, data_offset, index_offset)."""
+    if fanout < 2:
+        raise ValueError("rtree_block_size must be at least 2")
+    levels = _build_levels(len(blocks), fanout)
+    top = len(levels) - 1
+    order = _node_order(levels, layout)
+
+    def nsize(L, i):
+        k = fanout if pad else len(levels[L][i])
+        return 4 + k * (32 if L == 0 else 24)
+
+    index_size = 48 + sum(nsize(L, i) for L, i in order)
+    prefix = struct.pack(e + prefix_fmt, prefix_val)
+    data_size = len(prefix) + sum(len(b) for b in blocks)
+    if layout == "index_before_data":
+        index_off, data_off = base, base + index_size
+    else:
+        data_off, index_off = base, base + data_size
+    boffs, p = [], data_off + len(prefix)
+    for b in blocks:
+        boffs.append(p)
+        p += len(b)
+    end_of_data = p
+    noff, p = {}, index_off + 48
+    for key in order:
+        noff[key] = p
+        p += nsize(*key)
+    nspan = {}
+    for L in range(top + 1):
+        for i, kids in enumerate(levels[L]):
+            if kids:
+                nspan[(L, i)] = _bound([spans[k] for k in kids] if L == 0 else
+                                       [nspan[(L - 1, k)] for k in kids])
+    root_span = nspan.get((top, 0), (0, 0, 0, 0))
+    idx = io.BytesIO()
+    idx.write(struct.pack(e + "IIQIIIIQII", CIR_MAGIC, fanout, len(blocks), *root_span,
+                          end_of_data, ips, 0))
+    for L, i in order:
+        kids = levels[L][i]
+        body = struct.pack(e + "BBH", 1 if L == 0 else 0, 0, len(kids))
+        for k in kids:
+            if L == 0:
+                body += struct.pack(e + "IIIIQQ", *spans[k], boffs[k], len(blocks[k]))
+            else:
+                body += struct.pack(e + "IIIIQ", *nspan[(L - 1, k)], noff[(L - 1, k)])
+        body += b"\0" * (nsize(L, i) - len(body))
+        assert idx.tell() + index_off == noff[(L, i)]
+        idx.write(body)
+    dat = prefix + b"".join(blocks)
+    if layout == "index_before_data":
+        return idx.getvalue() + dat, data_off, index_off
+    return dat + idx.getvalue(), data_off, index_off
+
+
+def _emit_bpt(e, base, items, block_size, key_size, pad):
+    """items: [(key bytes, id, size)] already in leaf order.  Level-order B+ tree."""
+    if block_size < 1:
+        raise ValueError("chrom_block_size must be at least 1")
+    if block_size == 1 and len(items) > 1:
+        # fan-out 1 cannot branch: a chain of one-child nodes would never end
+        raise ValueError("chrom_block_size 1 can only hold a single chromosome")
+    levels = _build_levels(len(items), block_size)
+    top = len(levels) - 1
+    isz = key_size + 8
+
+    def nsize(L, i):
+        return 4 + (block_size if pad else len(levels[L][i])) * isz
+
+    noff, p = {}, base + 32
+    for L in range(top, -1, -1):
+        for i in range(len(levels[L])):
+            noff[(L, i)] = p
+            p += nsize(L, i)
+    first = {}
+    for L in range(top + 1):
+        for i, kids in enumerate(levels[L]):
+            if kids:
+                first[(L, i)] = items[kids[0]][0] if L == 0 else first[(L - 1, kids[0])]
+    out = io.BytesIO()
+    out.write(struct.pack(e + "IIIIQQ", BPT_MAGIC, block_size, key_size, 8, len(items), 0))
+    for L in range(top, -1, -1):
+        for i, kids in enumerate(levels[L]):
+            body = struct.pack(e + "BBH", 1 if L == 0 else 0, 0, len(kids))
+            for k in kids:
+                if L == 0:
+                    key, cid, size = items[k]
+                    body += key.ljust(key_size, b"\0") + struct.pack(e + "II", cid, size)
+                else:
+                    body += first[(L - 1, k)].ljust(key_size, b"\0") + \
+                        struct.pack(e + "Q", noff[(L - 1, k)])
+            body += b"\0" * (nsize(L, i) - len(body))
+            out.write(body)
+    return out.getvalue()
+
+
+def _val_bits(v):
+    return int(float_to_bits(v), 16)
+
+
+def _wig_section_bytes(e, cid, sec):
+    typ = sec["type"]
+    if typ == 1:
+        items = sec["items"]
+        start = items[0][0] if items else 0
+        end = max((it[1] for it in items), default=0)
+        hdr = (cid, start, end, 0, 0, 1, 0, len(items))
+        body = b"".join(struct.pack(e + "III", s, en, _val_bits(v)) for s, en, v in items)
+        ivs = [(s, en, float_to_bits(v)) for s, en, v in items]
+    elif typ == 2:
+        items, span = sec["items"], sec["span"]
+        start = items[0][0] if items else 0
+        end = max((it[0] + span for it in items), default=0)
+        hdr = (cid, start, end, 0, span, 2, 0, len(items))
+        body = b"".join(struct.pack(e + "II", s, _val_bits(v)) for s, v in items)
+        ivs = [(s, s + span, float_to_bits(v)) for s, v in items]
+    elif typ == 3:
+        vals, start, step, span = sec["values"], sec["start"], sec["step"], sec["span"]
+        end = start + (len(vals) - 1) * step + span if vals else start
+        hdr = (cid, start, end, step, span, 3, 0, len(vals))
+        body = b"".join(struct.pack(e + "I", _val_bits(v)) for v in vals)
+        ivs = [(start + i * step, start + i * step + span, float_to_bits(v))
+               for i, v in enumerate(vals)]
+    else:
+        raise ValueError("bigWig section type must be 1, 2 or 3")
+    return struct.pack(e + "IIIIIBBH", *hdr) + body, ivs
+
+
+def spec_content(kind, spec):
+    """The content a spec describes, in the shape decode() reports it:
+    chrom_id -> [[start, end, bits_hex]] (bigWig) / [[start, end, rest_hex]]."""
+    _, _, cid_of = _spec_chroms(spec)
+    out = {}
+    for sec in spec.get("sections", []):
+        cid = cid_of(sec["chrom"])
+        if kind == "bigwig":
+            _, ivs = _wig_section_bytes("<", cid, sec)
+            out.setdefault(cid, []).extend([s, en, b] for s, en, b in ivs)
+        else:
+            for it in sec["items"]:
+                rest = it[2] if len(it) > 2 else ""
+                rb = rest if isinstance(rest, bytes) else rest.encode("latin-1")
+                out.setdefault(cid, []).append([it[0], it[1], rb.hex()])
+    return out
+
+
+def _spec_chroms(spec):
+    chroms = [(c[0], c[1]) for c in spec["chroms"]]
+    keys = [nm.encode("latin-1") if isinstance(nm, str) else bytes(nm) for nm, _ in chroms]
+    if spec.get("ids") is not None:
+        ids = list(spec["ids"])
+    else:                                  # id = rank of the name in byte order
+        rank = {k: i for i, k in enumerate(sorted(set(keys)))}
+        ids = [rank[k] for k in keys]
+    items = sorted(zip(keys, ids, [sz for _, sz in chroms]))
+    by_name = {k.decode("latin-1"): i for k, i in zip(keys, ids)}
+
+    def cid_of(x):
+        return by_name[x] if isinstance(x, str) else int(x)
+    return items, by_name, cid_of
+
+
+def _encode(kind, spec):
+    e = {"little": "<", "big": ">"}[spec.get("endian", "little")]
+    version = spec.get("version", 4)
+    compress = bool(spec.get("compress", True))
+    layout = spec.get("rtree_layout", "level_order")
+    fanout = spec.get("rtree_block_size", 256)
+    pad = bool(spec.get("pad_nodes", False))
+    items, _, cid_of = _spec_chroms(spec)
+    key_size = spec.get("key_size") or max([len(k) for k, _, _ in items] + [1])
+    # ---- main data blocks
+    raw, spans, per_chrom, n_items = [], [], {}, 0
+    for sec in spec.get("sections", []):
+        cid = cid_of(sec["chrom"])
+        if kind == "bigwig":
+            buf, ivs = _wig_section_bytes(e, cid, sec)
+            per_chrom.setdefault(cid, []).extend((s, en, bits_to_float(b)) for s, en, b in ivs)
+            rng = [(s, en) for s, en, _ in ivs]
+        else:
+            buf = b""
+            rng = []
+            for it in sec["items"]:
+                rest = it[2] if len(it) > 2 else ""
+                rb = rest if isinstance(rest, bytes) else rest.encode("latin-1")
+                c = cid_of(it[3]) if len(it) > 3 else cid      # per-item override (tests)
+                buf += struct.pack(e + "III", c, it[0], it[1]) + rb + b"\0"
+                rng.append((it[0], it[1]))
+                per_chrom.setdefault(c, []).append((it[0], it[1]))
+        n_items += len(rng)
+        raw.append(buf)
+        if sec.get("leaf_span"):                       # override (negative tests)
+            spans.append(tuple(sec["leaf_span"]))
+        elif rng:
+            spans.append((cid, min(s for s, _ in rng), cid, max(en for _, en in rng)))
+        else:
+            spans.append((cid, 0, cid, 0))
+    ips = spec.get("items_per_slot")
+    if ips is None:
+        ips = max([1024] + [len(s.get("items", s.get("values", []))) for s in spec.get("sections", [])])
+    # ---- zoom blocks
+    zraw = []
+    for z in spec.get("zooms", []):
+        zips = z.get("items_per_slot") or ips
+        groups, cur = [], []
+        for rec in z["records"]:
+            c = cid_of(rec[0])
+            if cur and (len(cur) >= zips or (z.get("split_on_chrom", True) and cur[-1][0] != c)):
+                groups.append(cur)
+                cur = []
+            cur.append((c,) + tuple(rec[1:]))
+        if cur:
+            groups.append(cur)
+        zb, zs = [], []
+        for g in groups:
+            zb.append(b"".join(struct.pack(e + "IIIIIIII", c, s, en, v, _val_bits(mn),
+                                           _val_bits(mx), _val_bits(sm), _val_bits(sq))
+                               for c, s, en, v, mn, mx, sm, sq in g))
+            zs.append(_bound([(c, s, c, en) for c, s, en, *_ in g]))
+        zraw.append((z, zips, zb, zs, sum(len(g) for g in groups)))
+    if compress:
+        ubs = max([len(b) for b in raw] + [len(b) for z in zraw for b in z[2]] + [1])
+        ubs = spec.get("uncompress_buf_size", ubs)
+        pack = zlib.compress
+    else:
+        ubs = 0
+
+        def pack(b):
+            return b
+    blocks = [pack(b) for b in raw]
+    # ---- summary
+    summary = None
+    if version >= 2:
+        summary = spec.get("summary")
+        if summary is None:
+            if kind == "bigwig":
+                segs = {c: [it for it in lst if it[1] > it[0]] for c, lst in per_chrom.items()}
+            else:
+                segs = {}
+                for c, lst in per_chrom.items():
+                    delta = {}
+                    for s, en in lst:
+                        if en > s:
+                            delta[s] = delta.get(s, 0) + 1
+                            delta[en] = delta.get(en, 0) - 1
+                    out, depth, prev = [], 0, None
+                    for p in sorted(delta):
+                        if depth > 0 and p > prev:
+                            out.append((prev, p, float(depth)))
+                        depth += delta[p]
+                        prev = p
+                    segs[c] = out
+            bases, mn, mx, sm, sq, _, _ = _stats([s for c in sorted(segs) for s in segs[c]])
+            summary = dict(bases_covered=bases, min=mn or 0.0, max=mx or 0.0, sum=sm, sum_squares=sq)
+    # ---- assemble
+    nz = len(zraw)
+    out = bytearray(64 + 24 * nz)
+    aso = 0
+    if kind == "bigbed" and spec.get("autosql") is not None:
+        aso = len(out)
+        out += spec["autosql"].encode("latin-1") + b"\0"
+    tso = 0
+    if summary is not None:
+        tso = len(out)
+        out += struct.pack(e + "Qdddd", summary["bases_covered"], summary["min"], summary["max"],
+                           summary["sum"], summary["sum_squares"])
+    cto = len(out)
+    out += _emit_bpt(e, cto, items, spec.get("chrom_block_size", 256), key_size, pad)
+    data_count = spec.get("data_count", len(blocks) if kind == "bigwig" else n_items)
+    seg, fdo, fio = _emit_indexed(e, len(out), blocks, spans, fanout, layout, ips,
+                                  "Q", data_count, pad)
+    out += seg
+    zh = []
+    for z, zips, zb, zs, nrec in zraw:
+        seg, zdo, zio = _emit_indexed(e, len(out), [pack(b) for b in zb], zs, fanout, layout,
+                                      zips, "I", nrec, pad)
+        out += seg
+        zh.append((z["reduction"], 0, zdo, zio))
+    magic = BIGWIG_MAGIC if kind == "bigwig" else BIGBED_MAGIC
+    out += struct.pack(e + "I", magic)
+    if kind == "bigwig":
+        fc = dfc = 0
+    else:
+        first = next((it for s in spec.get("sections", []) for it in s["items"]), None)
+        rest = (first[2] if first is not None and len(first) > 2 else "")
+        if isinstance(rest, bytes):
+            rest = rest.decode("latin-1")
+        fc = spec.get("field_count", 3 + (len(rest.split("\t")) if rest else 0))
+        dfc = spec.get("defined_field_count", min(fc, 12))
+    struct.pack_into(e + "IHHQQQHHQQIQ", out, 0, magic, version, nz, cto, fdo, fio, fc, dfc,
+                     aso, tso, ubs, 0)
+    for i, z in enumerate(zh):
+        struct.pack_into(e + "IIQQ", out, 64 + 24 * i, *z)
+    return bytes(out)
+
+
+def encode_bigwig(spec):
+    """Independent bigWig writer; see the module docstring / README of the spec:
+    endian, version, compress, chroms [[name,size]], ids, chrom_block_size,
+    key_size, sections [{chrom, type, ...}], rtree_block_size, rtree_layout,
+    items_per_slot, zooms [{reduction, records, items_per_slot}], summary,
+    pad_nodes.  `chrom` may be an id or a name."""
+    return _encode("bigwig", spec)
+
+
+def encode_bigbed(spec):
+    """Independent bigBed writer (sections [{chrom, items [[s,e,rest]]}],
+    autosql, field_count, defined_field_count; otherwise as encode_bigwig)."""
+    return _encode("bigbed", spec)
+
+
+# --------------------------------------------------------------------------
+# self test
+# --------------------------------------------------------------------------
+
+def _demo_wig_spec(**kw):
+    spec = dict(
+        endian="little", version=4, compress=True,
+        chroms=[["chr1", 1000], ["chr10", 2000], ["chr2", 500]],
+        chrom_block_size=2, rtree_block_size=2, rtree_layout="level_order", items_per_slot=8,
+        sections=[
+            dict(chrom=0, type=1, items=[[0, 10, 1.5], [10, 30, 2.0], [100, 105, -3.0]]),
+            dict(chrom=0, type=2, span=5, items=[[200, 0.5], [210, 0.25], [300, 4.0]]),
+            dict(chrom=0, type=3, start=400, step=10, span=4, values=[1.0, 2.0, 3.0, "40800000"]),
+            dict(chrom=1, type=1, items=[[5, 50, 7.0]]),
+            dict(chrom=1, type=3, start=100, step=1, span=1, values=[0.125] * 6),
+            dict(chrom=2, type=1, items=[[0, 500, 0.25]]),
+        ])
+    spec.update(kw)
+    if "zooms" not in spec:
+        spec["zooms"] = _zooms_for("bigwig", spec, [16, 64])
+    return spec
+
+
+def _demo_bed_spec(**kw):
+    spec = dict(
+        endian="little", version=4, compress=True,
+        chroms=[["chr1", 1000], ["chr10", 2000], ["chr2", 500]],
+        chrom_block_size=2, rtree_block_size=2, rtree_layout="level_order", items_per_slot=8,
+        autosql="table t\n\"demo\"\n(\nstring chrom; \"c\"\nuint s; \"s\"\nuint e; \"e\"\nstring name; \"n\"\n)\n",
+        sections=[
+            dict(chrom=0, items=[[0, 900, "long"], [5, 10, "a"], [5, 20, "b"]]),
+            dict(chrom=0, items=[[30, 40, "c"], [1000, 1000, "atEnd"]]),
+            dict(chrom=1, items=[[7, 8, "d"]]),
+            dict(chrom=2, items=[[0, 500, "e"], [100, 100, "zero"], [499, 500, "f"]]),
+        ])
+    spec.update(kw)
+    if "zooms" not in spec:
+        spec["zooms"] = _zooms_for("bigbed", spec, [16, 64])
+    return spec
+
+
+def _zooms_for(kind, spec, reductions, items_per_slot=3):
+    """Consistent zoom levels for a spec: fixed windows of `reduction` bases,
+    one record per window that covers data."""
+    content = spec_content(kind, spec)
+    segs = {}
+    for c, lst in content.items():
+        if kind == "bigwig":
+            segs[c] = sorted((s, e, bits_to_float(b)) for s, e, b in lst if e > s)
+        else:
+            delta = {}
+            for s, e, _ in lst:
+                if e > s:
+                    delta[s] = delta.get(s, 0) + 1
+                    delta[e] = delta.get(e, 0) - 1
+            out, depth, prev = [], 0, None
+            for p in sorted(delta):
+                if depth > 0 and p > prev:
+                    out.append((prev, p, float(depth)))
+                depth += delta[p]
+                prev = p
+            segs[c] = out
+    zooms = []
+    for red in reductions:
+        recs = []
+        for c in sorted(segs):
+            lst = segs[c]
+            if not lst:
+                continue
+            starts = [s for s, _, _ in lst]
+            w = (lst[0][0] // red) * red
+            hi = max(e for _, e, _ in lst)
+            while w < hi:
+                bases, mn, mx, sm, sq, _, _ = _range_stats(lst, starts, w, w + red)
+                if bases:
+                    recs.append([c, w, min(w + red, hi), bases, mn, mx, sm, sq])
+                w += red
+        zooms.append(dict(reduction=red, records=recs, items_per_slot=items_per_slot))
+    return zooms
+
+
+def _expect(problems, *needles):
+    txt = "\n".join(problems)
+    if not problems:
+        raise AssertionError("check() accepted a file it must reject (wanted %r)" % (needles,))
+    for n in needles:
+        if n not in txt:
+            raise AssertionError("check() problems lack %r:\n%s" % (n, txt))
+
+
+def _selftest(verbose=False):
+    n = 0
+    # ---- positives: encoder output is accepted and decodes to the spec
+    for kind, mk, enc in (("bigwig", _demo_wig_spec, encode_bigwig),
+                          ("bigbed", _demo_bed_spec, encode_bigbed)):
+        for endian in ("little", "big"):
+            for compress in (True, False):
+                for layout in LAYOUTS:
+                    for version in (1, 2, 3, 4):
+                        for cbs, fan in ((2, 2), (3, 3), (256, 256), (2, 256), (256, 2)):
+                            spec = mk(endian=endian, compress=compress, rtree_layout=layout,
+                                      version=version, chrom_block_size=cbs, rtree_block_size=fan)
+                            data = enc(spec)
+                            ps = check(data)
+                            assert not ps, (kind, endian, compress, layout, version, cbs, fan, ps)
+                            dec = decode(data)
+                            key = "values" if kind == "bigwig" else "entries"
+                            assert dec[key] == spec_content(kind, spec), (kind, "content")
+                            assert dec["endian"] == endian and dec["version"] == version
+                            assert (dec["summary"] is None) == (version == 1)
+                            for z, zs in zip(dec["zooms"], spec["zooms"]):
+                                got = [r[:4] + [_f32(x) for x in r[4:]] for r in z["records"]]
+                                want = [r[:4] + [_f32(x) for x in r[4:]] for r in zs["records"]]
+                                assert got == want, (kind, "zoom records")
+                            n += 1
+    # chrom_block_size 1 is only possible with a single chromosome
+    one = dict(endian="big", version=3, compress=False, chroms=[["c", 50]], chrom_block_size=1,
+               rtree_block_size=2, sections=[dict(chrom="c", type=3, start=0, step=5, span=5,
+                                                  values=[1, 2, 3])])
+    assert not check(encode_bigwig(one))
+    n += 1
+
+    # ---- negatives
+    base = _demo_wig_spec(compress=False)
+    good = encode_bigwig(base)
+    h, r = _parse_header(good)
+    # (1) an R-tree node whose recorded span does not contain a child
+    t = _walk_rtree(r, h["full_index_offset"], "main index")
+    root = t["nodes"][0]
+    assert not root["is_leaf"], "demo spec must give a multi-level index"
+    child = next(nd for nd in t["nodes"] if nd["span"] == tuple(root["items"][0][:4]))
+    cend = max((it[2], it[3]) for it in child["items"])
+    bad = bytearray(good)
+    struct.pack_into("<I", bad, root["offset"] + 4 + 12, cend[1] - 1)     # endBase of item 0
+    _expect(check(bytes(bad)), "[index]", "not contained in the span its parent records")
+    _expect(check(bytes(bad), only={"index"}), "not contained")
+    assert not check(bytes(bad), only={"summary", "chromtree"})
+    # same in a zoom index
+    zt = _walk_rtree(r, h["zoom_headers"][0]["index_offset"], "zoom 0 index")
+    zroot = zt["nodes"][0]
+    assert not zroot["is_leaf"]
+    bad = bytearray(good)
+    struct.pack_into("<I", bad, zroot["offset"] + 4 + 4, zroot["items"][0][1] + 1)  # startBase
+    _expect(check(bytes(bad)), "zoom 0 index", "not contained")
+    # header bounds not containing the root's items
+    bad = bytearray(good)
+    struct.pack_into("<I", bad, h["full_index_offset"] + 28, 1)            # endBase of bounds
+    _expect(check(bytes(bad)), "not contained in the header bounds")
+    # (2) a block holding items of two chromosomes / of the wrong chromosome
+    bspec = _demo_bed_spec(compress=False)
+    bspec["sections"][0]["items"][1] = [5, 10, "a", 1]
+    _expect(check(encode_bigbed(bspec)), "[blocks]", "several chromosomes")
+    bspec = _demo_bed_spec(compress=True)
+    bspec["sections"][0]["items"][2] = [5, 20, "b", 2]
+    _expect(check(encode_bigbed(bspec)), "several chromosomes")
+    bad = bytearray(good)
+    struct.pack_into("<I", bad, t["leaves"][0]["offset"], 1)               # section chromId
+    _expect(check(bytes(bad)), "under a leaf span of chromosome 0")
+    # (3) truncated files
+    for cut in (len(good) - 1, len(good) - 10, len(good) // 2, 100, 64, 10, 3):
+        _expect(check(good[:cut]))
+        try:
+            decode(good[:len(good) // 2])
+            raise AssertionError("decode() accepted a truncated file")
+        except BBIFormatError:
+            pass
+    # (4) bad trailing magic
+    bad = bytearray(good)
+    bad[-1] ^= 0xFF
+    _expect(check(bytes(bad)), "[header]", "trailing magic")
+    _expect(check(good + b"\0"), "trailing magic")
+    # (5) overlapping / unsorted zoom records
+    zs = _demo_wig_spec(compress=False)
+    rec = list(zs["zooms"][0]["records"][1])
+    rec[1] -= 3                                   # now starts inside the previous record
+    zs["zooms"][0]["records"][1] = rec
+    _expect(check(encode_bigwig(zs)), "[zooms]", "overlaps the previous record")
+    zs = _demo_wig_spec()
+    zs["zooms"][0]["records"][0], zs["zooms"][0]["records"][1] = \
+        zs["zooms"][0]["records"][1], zs["zooms"][0]["records"][0]
+    _expect(check(encode_bigwig(zs)), "records not sorted")
+    zs = _demo_wig_spec()
+    zs["zooms"][1]["records"][0][6] *= 1.01       # wrong sum
+    _expect(check(encode_bigwig(zs)), "sumData")
+    zs = _demo_wig_spec()
+    del zs["zooms"][1]["records"][-1]             # data not under any record
+    _expect(check(encode_bigwig(zs)), "the records cover")
+    zs = _demo_bed_spec()
+    zs["zooms"][0]["records"][0][3] += 1          # wrong validCount
+    _expect(check(encode_bigbed(zs)), "validCount")
+    # (6) wrong total summary
+    for k, v in (("sum", 1.0), ("bases_covered", 7), ("min", -99.0), ("max", 99.0),
+                 ("sum_squares", 0.5)):
+        d = decode(good)["summary"]
+        s = {x: d[x] for x in ("bases_covered", "min", "max", "sum", "sum_squares")}
+        s[k] = v
+        _expect(check(encode_bigwig(_demo_wig_spec(summary=s))), "[summary]")
+        _expect(check(encode_bigbed(_demo_bed_spec(summary=s))), "[summary]")
+    # (7) others: junk in a zlib stream, raw/compressed flag mismatch, bad
+    # reserved, dataCount, unsorted chromosome keys, overlapping items
+    comp = encode_bigwig(_demo_wig_spec(compress=True))
+    ch, cr = _parse_header(comp)
+    leaf = _walk_rtree(cr, ch["full_index_offset"], "main index")["leaves"][1]
+    bad = bytearray(comp)
+    bad[leaf["offset"] + leaf["size"] - 1] ^= 0x55
+    _expect(check(bytes(bad)), "not a valid zlib stream")
+    bad = bytearray(comp)
+    struct.pack_into("<I", bad, 52, 0)                                     # claims raw blocks
+    _expect(check(bytes(bad)), "[blocks]")
+    bad = bytearray(good)
+    struct.pack_into("<I", bad, 52, 4096)                                  # claims zlib blocks
+    _expect(check(bytes(bad)), "not a valid zlib stream")
+    bad = bytearray(comp)
+    struct.pack_into("<I", bad, 52, 30)                                    # buffer too small
+    _expect(check(bytes(bad)), "more than uncompressBufSize")
+    _expect(check(encode_bigwig(_demo_wig_spec(data_count=99))), "dataCount")
+    _expect(check(encode_bigwig(_demo_wig_spec(items_per_slot=2))), "exceed itemsPerSlot")
+    _expect(check(encode_bigwig(_demo_wig_spec(version=5))), "version 5")
+    bad = bytearray(good)
+    bad[h["full_index_offset"] + 44] = 1                                   # reserved
+    _expect(check(bytes(bad)), "reserved")
+    us = _demo_wig_spec(ids=[0, 2, 1])
+    assert not check(encode_bigwig(us))          # ids need not follow name order
+    us = _demo_wig_spec()
+    us["sections"][0]["items"][1] = [5, 30, 2.0]
+    _expect(check(encode_bigwig(us)), "sorted and disjoint")
+    us = _demo_wig_spec()
+    us["sections"][5]["items"][0] = [0, 501, 0.25]
+    _expect(check(encode_bigwig(us)), "outside chromosome 2 of size 500")
+    us = _demo_bed_spec()
+    us["sections"][1]["items"][0], us["sections"][1]["items"][1] = \
+        us["sections"][1]["items"][1], us["sections"][1]["items"][0]
+    _expect(check(encode_bigbed(us)), "sorted by start")
+    # unsorted keys in the chromosome tree (patch two leaf keys)
+    bt = _walk_bpt(r, h["chrom_tree_offset"])
+    lf = next(nd for nd in bt["nodes"] if nd["is_leaf"] and nd["count"] >= 2)
+    ks = bt["key_size"]
+    bad = bytearray(good)
+    a, b = lf["offset"] + 4, lf["offset"] + 4 + ks + 8
+    bad[a:a + ks], bad[b:b + ks] = good[b:b + ks], good[a:a + ks]
+    _expect(check(bytes(bad), only={"chromtree"}), "[chromtree]", "increasing")
+    assert not check(bytes(bad), only={"chromtree"}, sorted_chrom_keys=False)
+    # queries
+    dec = decode(good)
+    assert query(dec, "chr1", 5, 12) == [[5, 10, "3fc00000"], [10, 12, "40000000"]]
+    assert query(dec, "nope", 0, 10) == []
+    bdec = decode(encode_bigbed(_demo_bed_spec()))
+    assert [x[2] for x in query(bdec, "chr1", 10, 30)] == [b"long".hex(), b"b".hex()]
+    assert [x[2] for x in query_touching(bdec, "chr1", 10, 30)] == \
+        [b"long".hex(), b"a".hex(), b"b".hex(), b"c".hex()]
+    if verbose:
+        print("selftest ok: %d positive encodings, negatives rejected" % n)
+    return True
+
+
+# --------------------------------------------------------------------------
+# CLI
+# --------------------------------------------------------------------------
+
+def main(argv):
+    if len(argv) < 2 or argv[1] not in ("check", "dump", "inflate", "selftest"):
+        sys.stderr.write(__doc__)
+        return 2
+    cmd, args = argv[1], argv[2:]
+    if cmd == "selftest":
+        _selftest(verbose=True)
+        return 0
+    if cmd == "check":
+        only, sorted_keys, strict = None, True, None
+        files = []
+        it = iter(args)
+        for a in it:
+            if a == "--only":
+                only = set(next(it).split(","))
+            elif a == "--unsorted-chrom-keys":
+                sorted_keys = False
+            elif a == "--strict-items-per-slot":
+                strict = True
+            else:
+                files.append(a)
+        rc = 0
+        for f in files:
+            with open(f, "rb") as fh:
+                ps = check(fh.read(), only, sorted_chrom_keys=sorted_keys,
+                           strict_items_per_slot=strict)
+            if ps:
+                rc = 1
+                print("%s: %d problem(s)" % (f, len(ps)))
+                for p in ps:
+                    print("  " + p)
+            else:
+                print("%s: ok" % f)
+        return rc
+    if len(args) != 1:
+        sys.stderr.write("usage: bbi_codec.py %s FILE\n" % cmd)
+        return 2
+    with open(args[0], "rb") as fh:
+        data = fh.read()
+    try:
+        dec = decode(data)
+    except BBIFormatError as x:
+        sys.stderr.write("%s: %s\n" % (args[0], x))
+        return 1
+    if cmd == "dump":
+        json.dump(dec, sys.stdout, indent=1)
+        sys.stdout.write("\n")
+    else:
+        for off, size, hx in dec["inflate_table"]:
+            print("INFLATE %d %d %s" % (off, size, hx))
+    return 0
+
+
+if __name__ == "__main__":
+    sys.exit(main(sys.argv))
